@@ -7,6 +7,8 @@ import (
 	"go/constant"
 	"go/token"
 	"go/types"
+	"math/big"
+	"os"
 	"strings"
 
 	"golang.org/x/tools/go/ssa"
@@ -41,31 +43,168 @@ func init() {
 
 // Reasoned exceptions for ARITH.GUARD: construct → reason.
 var arithJustified = map[string]string{
-	"yang.FromInt: convert int64→uint64 of neg": "uint64(-i) for i == MinInt64: -i wraps to MinInt64 and the conversion yields 2^63, the exact magnitude (two's complement)",
-	"yang.FromInt: neg int64":                   "see the conversion: the wrapped negation of MinInt64 converts to the exact magnitude 2^63",
-	"yang.FromInt: convert int64→uint64":        "reached with i >= 0 only (the i < 0 arm returned)",
-	"yang.decimalValueFromString: neg int64":                   "v came from ParseInt(…, 64): for v == MinInt64 the wrapped negation converts to the exact magnitude 2^63",
-	"yang.decimalValueFromString: convert int64→uint64":        "v >= 0 after the negation arm (MinInt64 maps to 2^63 exactly)",
-	"yang.pow10: mul uint64":                    "10^e fits a uint64 for e <= 19; the argument is a fraction-digits count (0..18) in every caller: Number.FractionDigits is 1..18 for decimals by RFC 7950 9.3.4 and by construction in ParseDecimal / Type.resolve (asRangeInt(1,18))",
-	"yang.pow10: add uint8":                     "loop counter below e <= 255",
-	"yang.(Number).frac: mul uint64":            "Trunc()*10^f <= Value (quotient times the same divisor)",
-	"yang.(Number).frac: mul uint64 #2":         "(Value mod 10^f) * 10^(18-f) < 10^18",
-	"yang.(Number).frac: sub uint64":            "Value - Trunc()*10^f >= 0 (remainder)",
-	"yang.(Number).frac: sub uint8":             "18 - f for f in 0..18 (fraction-digits domain)",
-	"yang.(Number).frac: convert int→uint8":     "18 - f in 0..18",
-	"yang.(Number).String: convert uint8→int":   "widening",
-	"yang.(Number).addQuantum: sub uint64":      "i - Value under the dominating Value <= i test; Value - i on its false edge",
-	"yang.(Number).addQuantum: sub uint64 #2":   "Value - i under Value > i",
-	"yang.(Number).addQuantum: sub uint64 #3":   "MaxUint64 - i cannot wrap",
-	"yang.(*EnumType).SetNext: add int64":       "last <= max <= 2^32 (ENUM.GUARD: last is only ever set from a value that passed the range tests), so last+1 cannot wrap",
-	"yang.NewEnumType: sub int64":               "constant expression MinEnum - 1",
-	"yang.(*Type).resolve: convert int64→int":   "operand is the result of asRangeInt(1, 18)",
-	"yang.(*Type).resolve: convert int64→uint8":    "operand is the result of asRangeInt(1, 18)",
-	"yang.(*Type).resolve: convert int64→uint8 #2": "operand is the result of asRangeInt(1, 18)",
-	"yang.(*Type).resolve: convert int→uint8":   "y.FractionDigits is 0 or the result of asRangeInt(1, 18) (TYPE.COPY: inherited unchanged)",
-	"yang.(*Type).resolve: convert int→uint8 #2": "y.FractionDigits is 0 or the result of asRangeInt(1, 18) (TYPE.COPY: inherited unchanged)",
-	"yang.decimalValueFromString: convert int→uint8": "dominated by len(s)-1-dx <= int(fracDigRequired) <= 18",
-	"yang.decimalValueFromString: sub uint8":         "fracDigRequired - fracDig with fracDig <= fracDigRequired established above",
+	"yang.FromInt: convert int64→uint64 of neg":         "uint64(-i) for i == MinInt64: -i wraps to MinInt64 and the conversion yields 2^63, the exact magnitude (two's complement)",
+	"yang.FromInt: neg int64":                           "see the conversion: the wrapped negation of MinInt64 converts to the exact magnitude 2^63",
+	"yang.FromInt: convert int64→uint64":                "reached with i >= 0 only (the i < 0 arm returned)",
+	"yang.decimalValueFromString: neg int64":            "v came from ParseInt(…, 64): for v == MinInt64 the wrapped negation converts to the exact magnitude 2^63",
+	"yang.decimalValueFromString: convert int64→uint64": "v >= 0 after the negation arm (MinInt64 maps to 2^63 exactly)",
+	"yang.pow10: mul uint64":                            "10^e fits a uint64 for e <= 19; the argument is a fraction-digits count (0..18) in every caller: Number.FractionDigits is 1..18 for decimals by RFC 7950 9.3.4 and by construction in ParseDecimal / Type.resolve (asRangeInt(1,18))",
+	"yang.pow10: add uint8":                             "loop counter below e <= 255",
+	"yang.(Number).frac: mul uint64":                    "Trunc()*10^f <= Value (quotient times the same divisor)",
+	"yang.(Number).frac: mul uint64 #2":                 "(Value mod 10^f) * 10^(18-f) < 10^18",
+	"yang.(Number).frac: sub uint64":                    "Value - Trunc()*10^f >= 0 (remainder)",
+	"yang.(Number).frac: sub uint8":                     "18 - f for f in 0..18 (fraction-digits domain)",
+	"yang.(Number).frac: convert int→uint8":             "18 - f in 0..18",
+	"yang.(Number).String: convert uint8→int":           "widening",
+	"yang.(Number).addQuantum: sub uint64":              "i - Value under the dominating Value <= i test; Value - i on its false edge",
+	"yang.(Number).addQuantum: sub uint64 #2":           "Value - i under Value > i",
+	"yang.(Number).addQuantum: sub uint64 #3":           "MaxUint64 - i cannot wrap",
+	"yang.(*EnumType).SetNext: add int64":               "last <= max <= 2^32 (ENUM.GUARD: last is only ever set from a value that passed the range tests), so last+1 cannot wrap",
+	"yang.NewEnumType: sub int64":                       "constant expression MinEnum - 1",
+	"yang.(*Type).resolve: convert int64→int":           "operand is the result of asRangeInt(1, 18)",
+	"yang.(*Type).resolve: convert int64→uint8":         "operand is the result of asRangeInt(1, 18)",
+	"yang.(*Type).resolve: convert int64→uint8 #2":      "operand is the result of asRangeInt(1, 18)",
+	"yang.(*Type).resolve: convert int→uint8":           "y.FractionDigits is 0 or the result of asRangeInt(1, 18) (TYPE.COPY: inherited unchanged)",
+	"yang.(*Type).resolve: convert int→uint8 #2":        "y.FractionDigits is 0 or the result of asRangeInt(1, 18) (TYPE.COPY: inherited unchanged)",
+	"yang.decimalValueFromString: convert int→uint8":    "dominated by len(s)-1-dx <= int(fracDigRequired) <= 18",
+	"yang.decimalValueFromString: sub uint8":            "fracDigRequired - fracDig with fracDig <= fracDigRequired established above",
+}
+
+// convertBoundExact decides a uint64→int64 conversion whose operand is compared with constants on
+// every path to it: +1 the implied upper bound fits (2^63-1, or 2^63 when the only use is an
+// immediate negation), -1 it does not, 0 no constant bound applies (other arguments are tried).
+func convertBoundExact(cv *ssa.Convert) (int, string) {
+	from, to := basicName(cv.X.Type()), basicName(cv.Type())
+	if !((from == "uint64" || from == "uint") && (to == "int64" || to == "int")) {
+		return 0, ""
+	}
+	path := AccessPath(cv.X)
+	var ub *big.Int
+	for _, g := range guardsAt(cv.Block()) {
+		if isLoopHeader(g.If.Block()) {
+			continue
+		}
+		bo, isB := g.Cond.(*ssa.BinOp)
+		if !isB {
+			continue
+		}
+		op := bo.Op
+		var k *ssa.Const
+		switch {
+		case AccessPath(bo.X) == path:
+			k, _ = bo.Y.(*ssa.Const)
+		case AccessPath(bo.Y) == path:
+			k, _ = bo.X.(*ssa.Const)
+			op = map[token.Token]token.Token{token.LSS: token.GTR, token.LEQ: token.GEQ, token.GTR: token.LSS, token.GEQ: token.LEQ, token.EQL: token.EQL, token.NEQ: token.NEQ}[op]
+		}
+		if k == nil || k.Value == nil || k.Value.Kind() != constant.Int {
+			continue
+		}
+		kv, _ := new(big.Int).SetString(k.Value.ExactString(), 10)
+		if kv == nil {
+			continue
+		}
+		if !g.Branch { // negate
+			op = map[token.Token]token.Token{token.LSS: token.GEQ, token.LEQ: token.GTR, token.GTR: token.LEQ, token.GEQ: token.LSS, token.EQL: token.NEQ, token.NEQ: token.EQL}[op]
+		}
+		var b *big.Int
+		switch op {
+		case token.LEQ, token.EQL:
+			b = kv
+		case token.LSS:
+			b = new(big.Int).Sub(kv, big.NewInt(1))
+		}
+		if b != nil && (ub == nil || b.Cmp(ub) < 0) {
+			ub = b
+		}
+	}
+	if ub == nil {
+		return 0, ""
+	}
+	limit := new(big.Int).SetUint64(1<<63 - 1)
+	what := "2^63-1"
+	if refs := cv.Referrers(); refs != nil && len(*refs) == 1 {
+		if u, isU := (*refs)[0].(*ssa.UnOp); isU && u.Op == token.SUB {
+			limit = new(big.Int).SetUint64(1 << 63)
+			what = "2^63 (the conversion is negated at once: -int64(2^63) is MinInt64 exactly)"
+		}
+	}
+	if ub.Cmp(limit) <= 0 {
+		return 1, fmt.Sprintf("the dominating comparisons bound the operand by %s <= %s", ub, what)
+	}
+	return -1, fmt.Sprintf("the dominating comparisons only bound the operand by %s, which exceeds %s: the conversion wraps to a value of the other sign with a nil error", ub, what)
+}
+
+// exprFP renders the expression tree of v (field names, callees, operators, constants) so that a
+// recorded justification can be tied to the expression it was argued for. Locals do not appear
+// (SSA), so renaming or introducing variables does not change it.
+func exprFP(v ssa.Value, depth int) string {
+	if depth == 0 {
+		return "…"
+	}
+	switch x := v.(type) {
+	case *ssa.Const:
+		if x.Value == nil {
+			return "nil"
+		}
+		return x.Value.ExactString()
+	case *ssa.Parameter:
+		return "param"
+	case *ssa.BinOp:
+		return "(" + exprFP(x.X, depth-1) + " " + x.Op.String() + " " + exprFP(x.Y, depth-1) + ")"
+	case *ssa.UnOp:
+		if x.Op == token.MUL {
+			return exprFP(x.X, depth)
+		}
+		return x.Op.String() + exprFP(x.X, depth-1)
+	case *ssa.Convert:
+		return basicName(x.Type()) + "(" + exprFP(x.X, depth-1) + ")"
+	case *ssa.FieldAddr:
+		if _, f, _ := fieldOf(x); f != nil {
+			return "." + f.Name()
+		}
+	case *ssa.Field:
+		if st, isS := x.X.Type().Underlying().(*types.Struct); isS {
+			return "." + st.Field(x.Field).Name()
+		}
+	case *ssa.Call:
+		name := ""
+		if f := x.Call.StaticCallee(); f != nil {
+			name = f.Name()
+		} else if b, isB := x.Call.Value.(*ssa.Builtin); isB {
+			name = b.Name()
+		} else {
+			name = "dyn"
+		}
+		var args []string
+		for _, a := range x.Call.Args {
+			args = append(args, exprFP(a, depth-1))
+		}
+		return name + "(" + strings.Join(args, ",") + ")"
+	case *ssa.Extract:
+		return fmt.Sprintf("%s#%d", exprFP(x.Tuple, depth), x.Index)
+	case *ssa.Phi:
+		return "var"
+	case *ssa.Alloc:
+		return "local"
+	}
+	return fmt.Sprintf("%T", v)
+}
+
+// arithShape: the expression each value-level justification in arithJustified was argued for.
+var arithShape = map[string]string{
+	"yang.(*Type).resolve: convert int64→int":           "int(asRangeInt(.FractionDigits,1,18)#0)",
+	"yang.(*Type).resolve: convert int64→uint8 #2":      "uint8(asRangeInt(.FractionDigits,1,18)#0)",
+	"yang.(*Type).resolve: convert int64→uint8":         "uint8(asRangeInt(.FractionDigits,1,18)#0)",
+	"yang.(*Type).resolve: convert int→uint8":           "uint8(.FractionDigits)",
+	"yang.(Number).String: convert uint8→int":           "int(.FractionDigits)",
+	"yang.(Number).frac: mul uint64 #2":                 "((.Value - (Trunc(…) * pow10(…))) * pow10((18 - .FractionDigits)))",
+	"yang.(Number).frac: mul uint64":                    "(Trunc(local) * pow10(.FractionDigits))",
+	"yang.(Number).frac: sub uint64":                    "(.Value - (Trunc(local) * pow10(.FractionDigits)))",
+	"yang.(Number).frac: sub uint8":                     "(18 - .FractionDigits)",
+	"yang.decimalValueFromString: convert int64→uint64": "uint64(var)",
+	"yang.pow10: add uint8":                             "(var + 1)",
+	"yang.pow10: mul uint64":                            "(var * 10)",
 }
 
 func arithScope(c *Ctx, fn *ssa.Function) bool {
@@ -200,11 +339,33 @@ func ruleArithGuard(c *Ctx) []Obligation {
 				con = fmt.Sprintf("%s #%d", base, seen[base])
 			}
 			pos := c.InstrPos(in)
+			// Sign-changing 64-bit conversions bounded by constants are decided exactly: the
+			// bound the dominating comparisons give must fit the target type.
+			if cv, isConv := in.(*ssa.Convert); isConv {
+				if verdict, why := convertBoundExact(cv); verdict != 0 {
+					if verdict > 0 {
+						obs = append(obs, ok(R, con, pos, why))
+					} else {
+						obs = append(obs, bad(R, con, pos, why))
+					}
+					return
+				}
+			}
 			if why := arithGuarded(in, operand); why != "" {
 				obs = append(obs, ok(R, con, pos, why))
 				return
 			}
 			if why, okj := arithJustified[con]; okj {
+				// A justification is an argument about one expression: it applies only while the
+				// expression it was written for is still the one in the code.
+				fp := exprFP(in.(ssa.Value), 4)
+				if os.Getenv("VERIF_DUMP_FP") != "" {
+					fmt.Fprintf(os.Stderr, "FP\t%q: %q,\n", con, fp)
+				}
+				if want, has := arithShape[con]; has && want != fp {
+					obs = append(obs, bad(R, con, pos, fmt.Sprintf("the recorded bound (%s) was argued for the expression %s; the code now computes %s, for which no bound is recorded", why, want, fp)))
+					return
+				}
 				obs = append(obs, just(R, con, pos, why))
 				return
 			}
